@@ -135,6 +135,9 @@ pub fn pool() -> Vec<Term> {
         Term::re("i[a-f]"),
         // a literal whose text is also a regex with another meaning (`r"a+"` is in the pool)
         Term::lit("a+"),
+        // counted repetitions: `e{n}` and `e{n,}` share exactly the strings of n repetitions
+        Term::re("a{2}"),
+        Term::re("a{2,}"),
     ]
 }
 
@@ -611,6 +614,11 @@ fn run_c10(ctx: &mut Ctx) {
     let thorough = ctx.tier == Tier::Thorough;
     let mut terms: Vec<Term> = vec![];
     if let Some(case) = ctx.replay.clone() {
+        if case.get("term").is_none() {
+            // a long-input case: re-run that part
+            c10_long_inputs(ctx, &dir);
+            return;
+        }
         terms.push(serde_json::from_value(case["term"].clone()).expect("term"));
     } else {
         let la = lit_alphabet();
@@ -654,9 +662,19 @@ fn run_c10(ctx: &mut Ctx) {
 }
 
 fn c10_long_inputs(ctx: &mut Ctx, dir: &Path) {
-    let alpha: Vec<char> = "aZ9éßøÅλΩжЖдאבجدकखあア漢字한ก𝔘".chars().collect();
-    let terms = [Term::re("\\p{Lu}+"), Term::re("\\p{Nd}+"), Term::re("\\p{Lu}\\p{Ll}+"), Term::re("\\p{L}[\\p{L}\\p{Nd}_]*"), Term::re("\\p{Lo}\\p{Lo}")];
-    for set in [vec![0usize, 1, 3], vec![0, 1, 2, 3], vec![4, 1, 0]] {
+    let alpha: Vec<char> = "aqzAQZ059éßøÅÞλπΩΔжяЖДդՔאבجدकखবগกขაბあんアン漢字한글٣३৫๔ǅᾈ𝔘𝕏ⅷ_".chars().collect();
+    let terms = [
+        Term::re("\\p{Lu}+"),
+        Term::re("\\p{Nd}+"),
+        Term::re("\\p{Lu}\\p{Ll}+"),
+        Term::re("\\p{L}[\\p{L}\\p{Nd}_]*"),
+        Term::re("\\p{Lo}\\p{Lo}"),
+        Term::re("\\p{Ll}+"),
+        Term::re("\\p{Lo}+"),
+        Term::re("\\p{Lt}\\p{Ll}*"),
+        Term::re("\\p{Nd}+\\p{L}"),
+    ];
+    for set in [vec![0usize, 1, 3], vec![0, 1, 2, 3], vec![4, 1, 0], vec![0, 5, 1, 6], vec![0, 5, 1, 6, 2, 7, 8], vec![2, 5, 8, 7]] {
         let ts: Vec<&Term> = set.iter().map(|i| &terms[*i]).collect();
         let text = format!("grammar;\npub S: () = {{ {} }};\n", ts.iter().map(|t| format!("{} => ()", t.render())).collect::<Vec<_>>().join(", "));
         let lx = match build_lexer(ctx, dir, &text) {
@@ -675,15 +693,11 @@ fn c10_long_inputs(ctx: &mut Ctx, dir: &Path) {
                 words.push(format!("{}{}", a, b));
             }
         }
-        let input = words.join(" ");
-        ctx.count("long_inputs");
-        // reference, word by word: each word is either one token of the longest-matching terminal
-        // set, or the lexer stops there; since words are separated by blanks, tokenization of the
-        // whole input is the concatenation of the tokenizations of the words
-        let mut expected: Vec<(usize, usize)> = vec![];
-        let mut stop: Option<usize> = None;
-        let mut off = 0usize;
-        'words: for w in &words {
+        // reference, word by word (words are separated by blanks, so the tokenization of the
+        // input is the concatenation of the tokenizations of its words); words the terminals
+        // cannot tokenize are left out, so that the whole input is consumed
+        let tokenize = |w: &str| -> Option<Vec<(usize, usize)>> {
+            let mut out = vec![];
             let mut pos = 0usize;
             while pos < w.len() {
                 let rest = &w[pos..];
@@ -696,14 +710,30 @@ fn c10_long_inputs(ctx: &mut Ctx, dir: &Path) {
                     }
                 }
                 if best == 0 {
-                    stop = Some(off + pos);
-                    break 'words;
+                    return None;
                 }
-                expected.push((off + pos, off + pos + best));
+                out.push((pos, pos + best));
                 pos += best;
             }
-            off += w.len() + 1;
+            Some(out)
+        };
+        let mut kept: Vec<&String> = vec![];
+        let mut expected: Vec<(usize, usize)> = vec![];
+        let stop: Option<usize> = None;
+        let mut off = 0usize;
+        for w in &words {
+            if let Some(toks) = tokenize(w) {
+                for (a, b) in toks {
+                    expected.push((off + a, off + b));
+                }
+                off += w.len() + 1;
+                kept.push(w);
+            }
         }
+        let input = kept.iter().map(|s| s.as_str()).collect::<Vec<_>>().join(" ");
+        ctx.count("long_inputs");
+        ctx.add("long_input_bytes", input.len() as u64);
+        ctx.add("long_input_tokens", expected.len() as u64);
         let mut got: Vec<(usize, usize)> = vec![];
         let mut got_stop: Option<usize> = None;
         for item in lx.builder.matcher::<&str>(&input) {
@@ -904,6 +934,36 @@ fn run_c11(ctx: &mut Ctx) {
                 }
             }
         });
+        // Range family (four to six terminals): the DFA builder partitions the outgoing character
+        // ranges of a state into disjoint pieces; sets built from a wide class in a lower rung, a
+        // nested class, counted repetitions and several one-letter-plus-tail terminals in the upper
+        // rung make classes start, nest and end inside one another in one state.
+        for wide in ["[a-z]", "[a-m]"] {
+            for nested in ["[a-f]", "[a-e]", "[b-f]", "[f-k]"] {
+                for (tail_hi, tail_lo, nested_tail) in [("a", "+", "#?"), ("[0-9]", "[0-9]", ""), ("a", "[a-z]", "")] {
+                    let letters = ["f", "k", "t", "a"];
+                    for mask in 1u32..16 {
+                        if mask.count_ones() < 2 {
+                            continue;
+                        }
+                        let mut terms = vec![Term::re(&format!("{}{}", nested, nested_tail))];
+                        for (li, l) in letters.iter().enumerate() {
+                            if mask & (1 << li) != 0 {
+                                terms.push(if tail_hi == "a" { Term::lit(&format!("{}a", l)) } else { Term::re(&format!("{}{}", l, tail_hi)) });
+                            }
+                        }
+                        let mut place: Vec<Option<(u8, bool)>> = vec![Some((0, false)); terms.len()];
+                        terms.push(Term::re(&format!("{}{}", wide, tail_lo)));
+                        place.push(Some((1, false)));
+                        idx += 1;
+                        if ctx.mine(idx) {
+                            todo.push(LexGrammar { terms, place, skip: 0, catch_all: None });
+                            ctx.count("range_family_sets");
+                        }
+                    }
+                }
+            }
+        }
         ctx.note("layouts_total", json!(idx));
     }
     let mut dfa_cache: BTreeMap<String, dense::DFA<Vec<u32>>> = BTreeMap::new();
